@@ -1,5 +1,5 @@
 From Coq Require Import List NArith Arith Permutation Sorted.
-From SK Require Import lib.LGraph lib.Mono model.C11_Model proof.C11_Aut proof.C11_WL proof.C11_Dedup proof.C11_Main proof.C11_Comp proof.C11_VF2 proof.C11_Vocab proof.C11_Sig proof.C11_Anchor model.C11_State proof.C11_StateProof model.C11_Partial proof.C11_PartialProof proof.C11_PruneClass proof.C11_WLPart proof.C11_Idem model.C11_Keys model.C11_Attr proof.C11_AttrProof model.C11_Orbit proof.C11_OrbitProof proof.C11_Extend model.C11_Order proof.C11_OrderProof model.C11_Views proof.C11_ViewsProof.
+From SK Require Import lib.LGraph lib.Mono model.C11_Model proof.C11_Aut proof.C11_WL proof.C11_Dedup proof.C11_Main proof.C11_Comp proof.C11_VF2 proof.C11_Vocab proof.C11_Sig proof.C11_Anchor model.C11_State proof.C11_StateProof model.C11_Partial proof.C11_PartialProof proof.C11_PruneClass proof.C11_WLPart proof.C11_Idem model.C11_Keys model.C11_Attr proof.C11_AttrProof model.C11_Orbit proof.C11_OrbitProof proof.C11_Extend model.C11_Order proof.C11_OrderProof model.C11_Views proof.C11_ViewsProof proof.C11_Singleton.
 Import ListNotations.
 
 (** Vocabulary (definitions in proof/C11_Aut.v, written out here for the reader):
@@ -505,3 +505,37 @@ Theorem C11_views :
          (forall u, In u (node_ids g) -> In u keep -> exists c, In c out /\ In u c)).
 Proof. exact views_all. Qed.
 Print Assumptions C11_views.
+
+(** The safe region of deduplicate_matches_with_anchor (round 5; planned in DESIGN section 5 as
+    "C11_prune_sound_exact_orbits_singletons").  [prepare (Some porbs) anchor] is the output of _prepare_pattern_orbits (the
+    correspondence compares it): the orbits disjoint from the anchor, and the sorted anchor nodes.  If every such free
+    orbit has at most one member, the free orbits are pairwise distinct, and every match is a dictionary (distinct keys)
+    on covered pattern nodes, then - without host orbits - every input match has the same items as a kept match: the
+    function drops duplicates only. *)
+Theorem C11_dedup_singletons_sound :
+  forall (X : Type) (key : X -> mapping) (xs : list X) (porbs : list (list N)) (anchor : list N) (out : list X),
+    let free := fst (prepare (Some porbs) anchor) in
+    let anchored := snd (prepare (Some porbs) anchor) in
+    (forall o, In o free -> (length o <= 1)%nat) ->
+    NoDup (concat free) ->
+    (forall x, In x xs -> NoDup (map fst (key x)) /\
+                          forall p h, In (p, h) (key x) -> In p (concat free) \/ In p anchored) ->
+    dedup_anchor key xs (Some porbs) anchor None = Some out ->
+    forall x, In x xs -> exists y, In y out /\ forall ph, In ph (key x) <-> In ph (key y).
+Proof. exact dedup_singletons_sound. Qed.
+Print Assumptions C11_dedup_singletons_sound.
+
+(** ... and outside it the function merges matches that NO symmetry of the pattern relates (path a-b-c-d with its exact
+    orbits {b,c}, {a,d}: m and m' differ by exchanging a and d only; replayed on the implementation by
+    corpus/regress/C11/dedup_merge_unrelated.json).  This is not a violation of the property (clause 3 asks for a sub-list,
+    clause 4 is about the reactor, which prunes by rule automorphisms since fix aa7fe3c); it delimits what the function's
+    remaining caller, PartialMatcher(prune_auto=True), may expect. *)
+Theorem C11_dedup_orbit_sets_merge_unrelated :
+  let O := a_orbits (analyze n_exact e_order ex_p4) in
+  wfb ex_p4 = true /\ O = [[2; 3]; [1; 4]]%N /\
+  dedup_anchor (fun m : mapping => m) [ex_m1; ex_m2] (Some O) [] None = Some [ex_m1] /\
+  length (auts n_exact e_order ex_p4) = 2%nat /\
+  (forall s, In s (auts n_exact e_order ex_p4) -> set_eqb ex_m2 (act s ex_m1) = false) /\
+  set_eqb ex_m2 ex_m1 = false.
+Proof. exact dedup_orbit_sets_merge_unrelated. Qed.
+Print Assumptions C11_dedup_orbit_sets_merge_unrelated.
